@@ -5,14 +5,57 @@ import os
 from . import common as C
 
 THEOREMS = ["ShipVerif.Timer.C14_timer_safe", "ShipVerif.Timer.timerCfg_is_fixed", "ShipVerif.Timer.inv_run",
-            "ShipVerif.Timer.C14_pinned_design_unsafe"]
+            "ShipVerif.Timer.C14_pinned_design_unsafe", "ShipVerif.Timer.C14_late_capture_unsafe"]
+
+
+def phase(st):
+    st = int(st)
+    return 0 if st <= 5 else 1 if st <= 17 else 2 if st <= 25 else 3 if st <= 35 else 4 if st <= 37 else 5 if st == 38 else 6
+
+
+PHASES = ["init", "hello", "protocol", "pin", "access", "complete", "error"]
+
+
+def phase_part(d, seed, n):
+    """connstep traces: a timeout (fired by the harness only while a timer is armed) must belong to the phase the
+    connection is in - the timer that fires was armed (generation changed) while the connection was in this phase"""
+    import re
+    fin, fimpl, faux = [os.path.join(d, x) for x in ("conn_in.txt", "conn_impl.txt", "conn_aux.txt")]
+    q = C.run([C.HARNESS, "connstep", "-seed", str(seed), "-n", str(n), "-events", "30", "-in", fin, "-impl", fimpl, "-aux", faux], cwd=d, timeout=3600)
+    if q.returncode != 0:
+        raise RuntimeError("connstep failed: " + (q.stdout or "")[-2000:])
+    ins, impl, aux = [open(x).read().splitlines() for x in (fin, fimpl, faux)]
+    bad, timeouts, by_phase = [], 0, {}
+    hist, st, gen, armed_in, header = [], 0, None, None, ""
+    for i, ev in enumerate(ins):
+        if ev.startswith("new"):
+            hist, st, gen, armed_in, header = [], 0, None, None, ev
+            continue
+        hist.append(ev[:200])
+        m = re.search(r"st=(\d+) t=(\d)", impl[i])
+        g = aux[i].split("=")[1] if i < len(aux) and "=" in aux[i] else None
+        if ev.startswith("timeout"):
+            timeouts += 1
+            by_phase[PHASES[phase(st)]] = by_phase.get(PHASES[phase(st)], 0) + 1
+            if armed_in is not None and phase(armed_in) != phase(st):
+                bad.append({"scenario": header, "history": list(hist), "impl": impl[i][:300],
+                            "why": "the timer that fired in state %d (%s phase) was armed in state %d (%s phase) and never stopped or replaced since" % (st, PHASES[phase(st)], armed_in, PHASES[phase(armed_in)])})
+        if m:
+            nst, t = int(m.group(1)), m.group(2) == "1"
+            if g != gen and t:
+                armed_in = nst      # armed during this event: the connection now waits in nst
+            elif not t:
+                armed_in = None
+            gen = g
+            st = nst
+    return bad, timeouts, by_phase
 
 
 def check(pid, tier, seed):
     R = C.Result(pid, tier, seed)
     R.assumptions = [
         "Go memory model primitives as stated in Model/Timer.lean (mutex sections atomic, non-blocking send needs a waiting receiver, select picks any ready case, goroutines start at an arbitrary later moment)",
-        "the three design facts are read syntactically from ship/handshake.go (make(chan) in setHandshakeTimer, close without send in stopHandshakeTimer, guarded re-check before handleState in the time.After case)",
+        "the four design facts are read syntactically from ship/handshake.go (make(chan) in setHandshakeTimer, close without send in stopHandshakeTimer, guarded re-check before handleState in the time.After case)",
         "stress trials stop or replace a timer well before its expiry (duration 40 ms or more, gaps below 2 ms)",
     ]
     changed, err = C.regen_facts()
@@ -44,6 +87,12 @@ def check(pid, tier, seed):
                 bad.append({"seed": s, "dur_ms": dur, "line": line.strip()})
             elif len(samples) < 3 and ";" in ops:
                 samples.append(line.strip())
+    pbad, ptimeouts, pby = phase_part(d, seed, 1500 if tier == "quick" else 12000)
+    if pbad and not bad:
+        v = min(pbad, key=lambda x: len(x["history"]))
+        R.violation({"property": pid, "kind": "a connection that progressed in time is hit by the timeout of an earlier phase",
+                     "replay": "harness connstep: apply `history` to a ShipConnection (role / stored id in `scenario`); the last event fires the armed timer",
+                     "count": len(pbad), "shortest": v}, "phase")
     if bad:
         R.violation({"property": pid, "kind": "a stopped or replaced timer delivered a timeout (or the timer flag stayed set)",
                      "replay": "harness timerstress: perform `ops` on a fresh client connection in CLIENT_WAIT through VerifArmTimer/VerifStopTimer, wait 2*dur+30ms",
@@ -66,5 +115,7 @@ def check(pid, tier, seed):
         "rule": "one evaluation = one arm/stop/sleep sequence (1-5 ops) on a real ShipConnection, 256 connections concurrently; distinct = distinct operation shapes with at least two operations",
         "samples": samples,
         "facts_changed": changed,
+        "timeouts_fired_in_handshake_traces": ptimeouts,
+        "timeouts_by_phase": pby,
     }
     return R.finish()
